@@ -127,7 +127,7 @@ def run(ctx):
     rep = 0
     # (a) engine totality
     n_gr, n_str = ctx.budget((400, 10), (5000, 30))
-    info, dis = ec.run(ctx, P, "ends", n_gr, n_str, seed=ctx.seed, gen_kwargs=GEN)
+    info, dis = ec.run(ctx, P, "ends", n_gr, n_str, seed=ctx.seed, gen_kwargs=GEN, text_route=True)
     ctx.corr_samples = dis[:5]
     st = info["stats"]
     classes_bad = 0
